@@ -324,15 +324,16 @@ async fn current_manifest_path(
         // using V1 naming scheme for all manifests. Since we are listing the
         // directory anyways, we will assert there aren't any V2 manifests.
         (Some((scheme, meta)), _) => {
+            let first_scheme = scheme;
             let mut current_version = scheme
                 .parse_version(meta.location.filename().unwrap())
                 .unwrap();
             let mut current_meta = meta;
 
             while let Some((scheme, meta)) = valid_manifests.next().await.transpose()? {
-                if matches!(scheme, ManifestNamingScheme::V2) {
+                if scheme != first_scheme {
                     return Err(Error::Internal {
-                        message: "Found V2 manifest in a V1 manifest directory".to_string(),
+                        message: "Found both V1 and V2 manifests in the same directory".to_string(),
                         location: location!(),
                     });
                 }
